@@ -86,8 +86,9 @@ def sort_rows(cols, rows):
 def encode_summary(rng, props, cp, layout="plain"):
     """props: list of (id, type, value); layout: plain | shuffled (property table order) | gaps (extra padding between values)"""
     codec = psdec.PY_CODEC[cp]
-    items = list(props)
-    if not any(p[0] == 1 for p in items):
+    items = [p for p in props if p[0] != 0]
+    omit = any(p[0] == 0 for p in props)            # marker (0, ...): leave the code page property out (default = UTF-8)
+    if not omit and not any(p[0] == 1 for p in items):
         items.insert(0, (1, 2, cp - 0x10000 if cp >= 0x8000 else cp))
     vals = []
     for pid, ty, v in items:
